@@ -85,6 +85,7 @@ where
     let lambda_coeff = inv_error_locs(&syndromes)?;
     let mut inv_error_locations = super::chien_search(&lambda_coeff);
     if inv_error_locations.len() != lambda_coeff.len() - 1 || inv_error_locations[0] == GF(0) {
+        verif_probe!(crate::verif_probes::ROOT_COUNT_REJECTED);
         return Err(ErrorDecodingError::Malfunction);
     }
 
@@ -101,6 +102,7 @@ where
             .map(|(a, b)| *a * *b)
             .sum();
         if t_j != GF(0) {
+            verif_probe!(crate::verif_probes::MALFUNCTION_TEST_REJECTED);
             return Err(ErrorDecodingError::Malfunction);
         }
     }
@@ -113,14 +115,17 @@ where
     for (loc, err) in error_locations.iter().zip(syndromes.iter()) {
         let i = loc.log();
         if i >= n {
+            verif_probe!(crate::verif_probes::ERRORS_OUTSIDE_RANGE);
             return Err(ErrorDecodingError::ErrorsOutsideRange);
         }
         let pos = n - i - 1;
         if pos < n_data {
             let idx = pos * stride;
+            verif_probe!(crate::verif_probes::CORRECTION_IN_DATA_PART);
             data[idx] = (GF(data[idx]) - *err).into();
         } else {
             let idx = (pos - n_data) * stride;
+            verif_probe!(crate::verif_probes::CORRECTION_IN_EC_PART);
             error[idx] = (GF(error[idx]) - *err).into();
         }
     }
@@ -137,10 +142,14 @@ fn find_inv_error_locations_levinson_durbin(syn: &[GF]) -> Result<Vec<GF>, Error
     // find smallest v such that H_v is nonsingular
     let mut v = syn.iter().take_while(|s| **s == GF(0)).count() + 1;
     if v > t {
+        verif_probe!(crate::verif_probes::LEADING_SYNDROMES_ZERO_REJECTED);
         // the first t syndromes vanish but a later one does not: more than t errors
         return Err(ErrorDecodingError::TooManyErrors);
     }
 
+    if v > 1 {
+        verif_probe!(crate::verif_probes::LD_INITIAL_V_GT_1);
+    }
     // initialize y = [1/b_v, 0, ..., 0]
     let mut y = Vec::with_capacity(t);
     y.push(GF(1) / syn[v - 1]);
@@ -175,6 +184,7 @@ fn find_inv_error_locations_levinson_durbin(syn: &[GF]) -> Result<Vec<GF>, Error
         let eps_v: GF = dot(&syn[v..=2 * v], &tmp);
         if eps_v != GF(0) {
             // "The Regular Case"
+            verif_probe!(crate::verif_probes::LD_REGULAR_STEP);
 
             // 1. w = [0, w], following steps are all part of eq. (6)
             w.insert(0, GF(0));
@@ -200,6 +210,7 @@ fn find_inv_error_locations_levinson_durbin(syn: &[GF]) -> Result<Vec<GF>, Error
             v += 1;
         } else {
             // "The Singular Case", statistically rare
+            verif_probe!(crate::verif_probes::LD_SINGULAR_STEP);
 
             // find m, eq. (7), usually m = 1
             let m = (1..t - v).find_map(|i| {
@@ -213,8 +224,12 @@ fn find_inv_error_locations_levinson_durbin(syn: &[GF]) -> Result<Vec<GF>, Error
             let (m, sigma_m) = if let Some((m, sigma_m)) = m {
                 (m, sigma_m)
             } else {
+                verif_probe!(crate::verif_probes::LD_SINGULAR_BREAK);
                 break;
             };
+            if m > 1 {
+                verif_probe!(crate::verif_probes::LD_SINGULAR_M_GT_1);
+            }
             let n = m + v;
 
             // compute the sigma_i used later (defined in eq. (7))
